@@ -237,6 +237,27 @@ def main():
                 for tag in run.get("must_reach", {}).get(h["name"], []):
                     if not h.get("reach_tags", {}).get(tag):
                         engine_errors.append("%s: reach tag %r never reached (vacuity guard)" % (h["name"], tag))
+                # acceptance witnesses: the property says inputs of this kind ARE accepted (a rule flips exactly at
+                # its bound, not earlier). If the exploration was complete and no input reaches the tag, the real
+                # code is stricter than the property allows: a violation, not a vacuity problem.
+                complete = not (h.get("unsupported") or h.get("incomplete") or h.get("unknown_queries"))
+                for tag in run.get("must_accept", {}).get(h["name"], []):
+                    if h.get("reach_tags", {}).get(tag):
+                        continue
+                    if not complete:
+                        engine_errors.append("%s: acceptance witness %r not reached, but the exploration is incomplete" % (h["name"], tag))
+                        continue
+                    os.makedirs(os.path.join(VERIF, "replays", pid), exist_ok=True)
+                    rp = os.path.join(VERIF, "replays", pid, "%s-unreachable-%s.json" % (h["name"], tag))
+                    json.dump({"property": pid, "harness": h["name"], "kind": "unreachable-acceptance", "tag": tag, "paths": h["paths"],
+                               "explanation": "every path of the harness was explored to completion with all queries decided and no input reaches the point tagged %r, which the property requires to be reachable (acceptance exactly at the bound)" % tag,
+                               "replay": "./check %s %s  (the verdict is an unsat result: there is no input to replay)" % (pid, tier)}, open(rp, "w"), indent=1)
+                    v = {"harness": h["name"], "kind": "unreachable-acceptance", "msg": "no input reaches %r: the code rejects what the property says is accepted" % tag, "site": h["name"], "model": {}}
+                    k = match_known(known, pid, v)
+                    if k:
+                        known_hits.append((k, v))
+                        continue
+                    violations.append({"v": v, "replay": rp, "native": "n/a (unsat verdict)", "confirmed": True})
                 for vi, v in enumerate(h.get("violations") or []):
                     k = match_known(known, pid, v)
                     if k:
